@@ -13,8 +13,8 @@ use std::rc::Rc;
 pub const DEF: PropDef = PropDef {
     id: "C19",
     level: "exploration",
-    rule: "(1) every program of the reference grammar's canonical corpus (all statement kinds in three contexts, operator chains, lists, calls), the hand-written corpus, and all degenerate-poetic / stray-control programs of C09, every constant-assignment form x target x right-hand side of C18; (2) the mention-sequence family: 12 templates that place up to 4 mentions in every traversal context (assignment target and operands, subscripts, list tails, call name and arguments, function name and parameters, conditions and blocks, mutation operand / destination / parameter, consecutive statements) x every filling from {x, X, the x, y, pronoun, a call fun taking x}; oracle: linting returns without panic in both builds, leaves the program (Debug rendering) untouched, equals the stable merge by line of the two passes run separately (pass order on ties), is identical for a second fresh linter, and the repeated-identifier diagnostics equal the reference mention rule computed by an independent field-order traversal (reported iff same spelling as the previous variable mention and not a callee name; callee names count as previous mentions; line of the mention); (3) lint histories: all ordered pairs (thorough: also triples over a subset) of 67 programs linted one after the other on one fresh thread through cli::linter::lint and cli::linter::run — every result must equal what the program gives when linted alone; non-trivial = programs with at least two variable mentions / every history; distinct = distinct text",
-    assumptions: &["'spells the same name' is exact spelling equality; sequences in which adjacent mentions differ only in letter case are skipped as unspecified", "callee and variable names are disjoint in the mention family"],
+    rule: "(1) every program of the reference grammar's canonical corpus (all statement kinds in three contexts, operator chains, lists, calls), the hand-written corpus, and all degenerate-poetic / stray-control programs of C09, every constant-assignment form x target x right-hand side of C18; (2) the mention-sequence family: 20 templates (6 of them with statements spanning lines) that place up to 4 mentions in every traversal context (assignment target and operands, subscripts, list tails, call name and arguments, function name and parameters, conditions and blocks, mutation operand / destination / parameter, consecutive statements) x every filling from {x, X, the x, y, pronoun, a call fun taking x, the variable fun, a call x taking x}; oracle: linting returns without panic in both builds, leaves the program (Debug rendering) untouched, equals the stable merge by line of the two passes run separately (pass order on ties), is identical for a second fresh linter, and the repeated-identifier diagnostics equal the reference mention rule computed by an independent field-order traversal (reported iff same spelling as the previous variable mention and not a callee name; callee names count as previous mentions; line of the mention); (3) lint histories: all ordered pairs (thorough: also triples over a subset) of 67 programs linted one after the other on one fresh thread through cli::linter::lint and cli::linter::run — every result must equal what the program gives when linted alone; non-trivial = programs with at least two variable mentions / every history; distinct = distinct text",
+    assumptions: &["'spells the same name' is exact spelling equality; sequences in which adjacent mentions differ only in letter case are skipped as unspecified", "a callee name counts as the previous mention for what follows and is never reported itself (the only reading under which the pinned tree satisfies the property); names used both as callee and as variable are included"],
     build,
     exhaustive: true,
 };
@@ -34,8 +34,15 @@ pub const TEMPLATES: &[&str] = &[
     "A is 5\nB is a word\nC says hi\nwhile D\nsay 1\n\n",
     "put A into B\nput C into D\n",
     "roll A into B\nrock C like a word\ngive back D\n",
+    // statements that span lines (a comment or a string with a line break inside): traversal order and line order differ
+    "say A\nput B (c\nc) into C\nsay D\n",
+    "put A plus B (c\nc) into C\nsay D\n",
+    "cut A (c\nc) into B with C\nsay D\n",
+    "let A at B (c\nc\nc) be C\nsay D\n",
+    "say \"a\nb\" plus A\nput B (c\nc) into C\nsay D\n",
+    "put A into B\nput C (c\nc) into D\nput 5 into A\n",
 ];
-pub const MENTIONS: &[&str] = &["x", "X", "the x", "y", "it", "fun taking x"];
+pub const MENTIONS: &[&str] = &["x", "X", "the x", "y", "it", "fun taking x", "fun", "x taking x"];
 
 fn render_name(n: &a::VariableName) -> String {
     match n {
@@ -243,7 +250,7 @@ fn build(tier: Tier) -> Box<dyn Check> {
     Box::new(C19 { history_set: Rc::new(hs), histories, corpus: Rc::new(texts), mention: if tier == Tier::Thorough { Space::union(vec![t.product(&m.seq_exact(4), |t, v| (t, v)), t.product(&m.seq_exact(5), |t, v| (t, v))]) } else { t.product(&m.seq_exact(4), |t, v| (t, v)) } })
 }
 
-fn fill(t: &str, v: &[usize]) -> String {
+pub fn fill(t: &str, v: &[usize]) -> String {
     let mut s = String::new();
     for ch in t.chars() {
         match ch {
@@ -388,13 +395,8 @@ impl Check for C19 {
                 unspecified = true;
             }
         }
-        // a callee that is also mentioned as a variable: the two readings of "callee" could differ
-        let callees: Vec<&String> = ms.0.iter().filter(|m| m.2).map(|m| &m.0).collect();
-        if ms.0.iter().any(|m| !m.2 && callees.contains(&&m.0)) {
-            unspecified = true;
-        }
         if unspecified {
-            ctx.count("skipped.mention rule not determined (case variants adjacent / callee also a variable)");
+            ctx.count("skipped.mention rule not determined (case variants adjacent)");
             return;
         }
         let mut expected: Vec<(u32, String)> = Vec::new();
